@@ -214,6 +214,25 @@ package grpc
 //@   ensures implies(result && allowed != nil && name != "" && name != "identity", exists(func(i int) bool { return 0 <= i && i < len(allowed) && allowed[i] == name }))
 //@   ensures implies(allowed != nil && name != "" && name != "identity" && forall(func(i int) bool { return implies(0 <= i && i < len(allowed), allowed[i] != name) }), !result)
 
+// serverStream.SendMsg (unary and streaming responses): the compressors handed
+// to prepareMsg are the stream's, and a compressor is passed only when the
+// stream's send encoding (what grpc-encoding announces; SetSendCompressor may
+// have changed it since the last message) is a non-identity name. Stream
+// invariant assumed on entry: a compressor is installed only together with a
+// non-identity send-compressor name (established by processUnaryRPC /
+// processStreamingRPC). The payload is written only if its length is within
+// the send limit (C21).
+
+//@ func (*serverStream).SendMsg
+//@   prop C27 C21
+//@   requires ss != nil && ss.s != nil
+//@   requires implies(ss.compressorV0 != nil || ss.compressorV1 != nil, ss.sendCompressorName != "" && ss.sendCompressorName != "identity")
+//@   assert at call prepareMsg#1 ss.sendCompressorName == ss.s.SendCompress()
+//@   assert at call prepareMsg#1 arg2 == ss.compressorV0 && arg3 == ss.compressorV1
+//@   assert at call prepareMsg#1 implies(arg2 != nil, ss.sendCompressorName != "" && ss.sendCompressorName != "identity")
+//@   assert at call prepareMsg#1 implies(arg3 != nil && ncalls("GetCompressor") == 0, ss.sendCompressorName != "" && ss.sendCompressorName != "identity")
+//@   assert at call Write#1 lastret("Len") <= Z(ss.maxSendMessageSize) && sameslice(arg2, payload) && sameslice(arg1, hdr)
+
 // recvAndDecompress: the flag read from the wire is checked against the
 // stream's encoding before anything is delivered; a message is returned only
 // if that check passed (lastret("checkRecvPayload") == 0: it returned nil), a
